@@ -175,7 +175,7 @@ class TypeNode:
 
     type: typing.Any
     """The type annotation for this node."""
-    unwrapped: typing.Any | None = None
+    unwrapped: typing.Any = constants.empty
     """The unwrapped type annotation for this node."""
     var: str | None = None
     """The variable or parameter name associated to the type annotation for this node."""
@@ -183,7 +183,8 @@ class TypeNode:
     """Whether this type annotation is cyclic."""
 
     def __post_init__(self):
-        if self.unwrapped is None:
+        # (`None` is an annotation in its own right: `type Missing = None` unwraps to it.)
+        if self.unwrapped is constants.empty:
             self.unwrapped = self.type
 
 
